@@ -574,6 +574,11 @@ func runAll(seed uint64, tier, outDir string, workers int, keep, doShrink bool) 
 		}
 		fmt.Fprintf(w, "FAIL %s %d %s %s ## %s%s\n", s, f.idx, f.stage, f.class, f.detail, extra)
 	}
+	nScen, scenFail := panicSiteScenarios()
+	fmt.Fprintf(w, "panic-site-scenarios %d\n", nScen)
+	if scenFail != "" {
+		fmt.Fprintf(w, "FAIL api-panic-site-guard 0 import SCENARIO ## %s\n", scenFail)
+	}
 	fmt.Fprintf(w, "time generate %.1fs execute %.1fs total %.1fs workers %d chunks %d\n", tGen.Seconds(), tExec.Seconds(), time.Since(t0).Seconds(), workers, nChunks)
 	if err := w.Flush(); err != nil {
 		return err
